@@ -69,6 +69,30 @@ def run(ctx):
         jobs.append(("script", dict(cfg=dict(k=k, solveT=2 * N, skipT=0, out="path", foreign=[], bad="none"), tdts=[], simdts=[2] * N,
                                     flog=[], probes=[0, 2, 3][n % 3], screening=bool(n % 2), progress=10 ** 9,
                                     prior=dict(k=k, solveT=N, simdts=[1] * N))))
+    # pause and resume: pause_on_interrupt is the package default — a KeyboardInterrupt inside the loop (in the update
+    # before or after it appended its record, before or in the middle of a frame) answered "continue" must leave
+    # every clause intact: the interrupted step is repeated, not skipped
+    rb = dict(Ks=[1, 2, 3], SolveTs=[1, 2, 3, 4], SkipTs=[0, 2], DTS=[1, 2], MaxFaults=(1 if ctx.quick else 2),
+              FaultKinds=["KIR"], OutModes=["temp", "path"], Foreigns=[[]], BadClasses=["none"])
+    ctx.model_check("TdglRun", rf.model_cfg(rb, rf.MECH, rf.INV_C05), name="TdglRun[C05, pause/resume]",
+                    required_actions=["Fault", "Update", "SaveEnd"], timeout=3000)
+    ctx.model_check("TdglRun", rf.model_cfg(dict(rb, Ks=[2], SolveTs=[3], SkipTs=[0], MaxFaults=1), dict(rf.MECH, MResumeRepeats=False),
+                                            ["FrameHoldsExactlyStepUpdates"]),
+                    name="TdglRun[resume skips the step, FrameHoldsExactlyStepUpdates]", expect_violation="FrameHoldsExactlyStepUpdates", count=False)
+    rscripts, _ = rf.export_behaviours(ctx, rb, rf.MECH, name="TdglRunGen[pause/resume]")
+    rscripts = [s for s in rscripts if s["flog"]]
+    rnd.shuffle(rscripts)
+    ctx.cov["resume_behaviours_exported"] = len(rscripts)
+    nres = 0
+    for n, s in enumerate(rscripts[: (150 if ctx.quick else 3000)]):
+        jobs.append(("script", dict(cfg=dict(s["cfg"]), tdts=s["tdts"], simdts=s["simdts"], flog=s["flog"], probes=[0, 2, 3][n % 3],
+                                    screening=bool((n // 3) % 2), progress=[10 ** 9, 3, 0][(n // 6) % 3])))
+        nres += 1
+    if nres < 50:
+        raise core.MachineryFailure(f"C05: only {nres} pause/resume behaviours to replay (vacuous)")
+    # the same undisturbed behaviours with the default pause_on_interrupt=True (nobody interrupts: no prompt may appear)
+    for n, s in enumerate(scripts[:40]):
+        jobs.append(("script", dict(cfg=dict(s["cfg"]), tdts=s["tdts"], simdts=s["simdts"], flog=[], probes=[0, 2][n % 2], pause=True)))
     # 3. natural runs of the real solver (adaptive with retries, fixed step, screening, thermalisation)
     from harness import runnat
     jobs += [("natural", p) for p in runnat.c05_matrix(ctx)]
